@@ -396,3 +396,182 @@ Section Stmt.
     rewrite Hx. unfold kc_text. rewrite app_comm_cons. apply starts_with_not_prefix; [exact Hms|reflexivity|exact Hfol].
   Qed.
 End Stmt.
+
+Theorem reject_unclosed_loop s b1 n0 ns c st Y pls b :
+  dangling Y -> kc_stmt_ok s (b1 ++ sense_text n0 ns c st ++ LPAR :: Y) -> blanks WS b1 ->
+  memc n0 idch = true -> all_in idch ns -> Forall pil_blank_line pls -> blanks WS b ->
+  is_prefix kw_state (kc_n0 s :: kc_ns s) = false -> is_prefix kw_macrostate (kc_n0 s :: kc_ns s) = false ->
+  no_tab (concat pls ++ b ++ kc_text s (b1 ++ sense_text n0 ns c st ++ LPAR :: Y)) ->
+  exists f0, forall f, f0 <= f ->
+    parse_pil_fuel f (concat pls ++ b ++ kc_text s (b1 ++ sense_text n0 ns c st ++ LPAR :: Y)) = err eParse.
+Proof.
+  intros HY Hs Hb1 H0 Hns Hp Hb Hst Hms Hnt. apply pil_document_reject; try assumption.
+  - unfold kc_text. destruct Hs as (H0s & _). apply idch_stop in H0s. apply stopc_elim in H0s. exact H0s.
+  - intros full b' Hb'. apply unclosed_loop_refused; assumption.
+Qed.
+
+(* the first opening bracket of the pattern itself: `X = a( ...` *)
+Definition open_first_text (x0 : chr) (xs b2 b1 : pstr) (n0 : chr) (ns : pstr) (c st : bool) (Y : pstr) : pstr :=
+  x0 :: xs ++ b2 ++ 61%N :: b1 ++ sense_text n0 ns c st ++ LPAR :: Y.
+
+(* non-vacuity:  "X = a( b\n",  "X = a b( c( d\n",  "X = q a( b( c ) d\n" *)
+Example unclosed_examples :
+  let sX i := mkKc 88%N [] [32%N] i [] in
+  let nm ch := ISense [32%N] ch [] false false in
+  (* X = q a( b *)
+  dangling (items_text [nm 98%N] [NL]) /\
+  kc_stmt_ok (sX (nm 113%N)) ([32%N] ++ sense_text 97%N [] false false ++ LPAR :: items_text [nm 98%N] [NL]) /\
+  parse_pil (kc_text (sX (nm 113%N)) ([32%N] ++ sense_text 97%N [] false false ++ LPAR :: items_text [nm 98%N] [NL])) = err eParse /\
+  (* X = q a( b( c ) d   (the inner loop is closed, the outer one is not) *)
+  dangling (items_text [ILoop [32%N] 98%N [] false false [nm 99%N] [32%N]; nm 100%N] [NL]) /\
+  parse_pil (kc_text (sX (nm 113%N)) ([32%N] ++ sense_text 97%N [] false false ++ LPAR ::
+               items_text [ILoop [32%N] 98%N [] false false [nm 99%N] [32%N]; nm 100%N] [NL])) = err eParse /\
+  (* X = q a( b c( d   (two unclosed loops) *)
+  dangling (items_text [nm 98%N] ([32%N] ++ sense_text 99%N [] false false ++ LPAR :: items_text [nm 100%N] [NL])) /\
+  parse_pil (kc_text (sX (nm 113%N)) ([32%N] ++ sense_text 97%N [] false false ++ LPAR ::
+               items_text [nm 98%N] ([32%N] ++ sense_text 99%N [] false false ++ LPAR :: items_text [nm 100%N] [NL]))) = err eParse /\
+  (* directly after the '=':  X = a( b *)
+  parse_pil [88; 32; 61; 32; 97; 40; 32; 98; 10]%N = err eParse.
+Proof.
+  assert (HE : stmt_end [NL] []).
+  { change [NL] with (([] ++ [NL]) ++ concat []). apply pil_stmt_end_lines; [apply pil_blank_line_plain; reflexivity|constructor]. }
+  cbn zeta. repeat split; try (vm_compute; reflexivity).
+  - apply dg_end; [cbn; repeat split; reflexivity|exact HE].
+  - apply dg_end; [|exact HE]. cbn [items_wf]. split; [apply item_wf_loop; cbn; repeat split; reflexivity|cbn; repeat split; reflexivity].
+  - apply dg_open; try reflexivity; [cbn; repeat split; reflexivity|]. apply dg_end; [cbn; repeat split; reflexivity|exact HE].
+Qed.
+
+(* ---------------------------------------------------------------- the unclosed bracket on the first item: `X = a( ...` *)
+Section First.
+  Variable full : pstr.
+  Variables (x0 : chr) (xs b2 b1 : pstr) (n0 : chr) (ns : pstr) (c st : bool) (Y : pstr).
+  Notation SN := (sense_text n0 ns c st).
+  Notation R := (b1 ++ sense_text n0 ns c st ++ LPAR :: Y).
+  Notation T := (open_first_text x0 xs b2 b1 n0 ns c st Y).
+  Hypothesis Hx0 : memc x0 idch = true.
+  Hypothesis Hxs : all_in idch xs.
+  Hypothesis Hnk : not_keyword_led (x0 :: xs).
+  Hypothesis Hst : is_prefix kw_state (x0 :: xs) = false.
+  Hypothesis Hms : is_prefix kw_macrostate (x0 :: xs) = false.
+  Hypothesis Hb2 : blanks WS b2.
+  Hypothesis Hb1 : blanks WS b1.
+  Hypothesis H0 : memc n0 idch = true.
+  Hypothesis Hns : all_in idch ns.
+  Hypothesis HY : dangling Y.
+
+  Lemma first_fol : nohead idch (b2 ++ 61%N :: R).
+  Proof. apply nohead_blanks; [vm_compute; reflexivity|exact Hb2|reflexivity]. Qed.
+  Lemma first_spre b : blanks WS b -> spre (b ++ T) = (x0 :: xs) ++ b2 ++ 61%N :: R.
+  Proof. intros Hb. unfold open_first_text. apply spre_blanks_stop; [exact Hb|apply idch_stop; exact Hx0]. Qed.
+
+  Lemma first_kw_fail b kw i j k l : blanks WS b -> is_prefix kw (x0 :: xs) = false -> all_in idch kw ->
+    nth_error G i = Some (mkNode KGroup [j] true WS [pil_c] true []) ->
+    (exists ks tags, nth_error G j = Some (mkNode KAnd (k :: ks) true WS [pil_c] true tags)) ->
+    nth_error G k = Some (mkNode KSuppress [l] true WS [pil_c] true []) ->
+    nth_error G l = Some (mkNode (KLit kw) [] true WS [pil_c] true []) ->
+    evals G full i true (At (b ++ T)) PFail.
+  Proof.
+    intros Hb Hp Hkw Hi (ks & tags & Hj) Hk Hl.
+    eapply (evals_kw_alt_fail G full pil_c WS pil_comment_ok i j k l); [exact Hi|exact Hj|exact Hk|exact Hl|].
+    rewrite (first_spre b Hb). apply starts_with_not_prefix; [exact Hp|exact Hkw|exact first_fol].
+  Qed.
+
+  Lemma first_alt_202 b : blanks WS b -> evals G full 202 true (At (b ++ T)) PFail.
+  Proof.
+    intros Hb.
+    assert (Hfail : forall x, spre x = SN ++ LPAR :: Y -> evals G full 211 true (At x) PFail).
+    { intros x Hxx. exact (loop_fails Y HY full x n0 ns c st Hxx H0 Hns). }
+    eapply evals_node_fail; [lk|apply (pre_premise G full pil_c WS pil_comment_ok); repeat split|].
+    unfold pre_pos. cbn [andb ncallpre]. rewrite (first_spre b Hb).
+    eapply impls_wrap; [reflexivity|reflexivity|].
+    eapply evals_node_fail; [lk|cbn; reflexivity|].
+    eapply impls_and; [reflexivity|reflexivity| |].
+    - apply (ev_ident full false _ x0 xs _ eq_refl Hx0 Hxs first_fol).
+    - eapply seqs_cons.
+      { eapply evals_eq; [apply (evals_slit G full pil_c WS pil_comment_ok 204 205 true true true); lk|].
+        cbn [andb]. rewrite spre_blanks_stop by (try exact Hb2; reflexivity).
+        unfold lit_res. cbn [starts_with]. rewrite N.eqb_refl. reflexivity. }
+      eapply seqs_cons.
+      { eapply evals_eq.
+        - eapply evals_node_ok; [lk|apply (pre_premise G full pil_c WS pil_comment_ok); repeat split|].
+          unfold pre_pos. cbn [andb ncallpre].
+          eapply impls_many; [reflexivity|reflexivity| |].
+          + eapply evals_node_ok; [lk|apply (pre_premise G full pil_c WS pil_comment_ok); repeat split|].
+            unfold pre_pos. cbn [andb ncallpre]. rewrite spre_idem.
+            eapply impls_wrap; [reflexivity|reflexivity|].
+            eapply evals_node_ok; [lk|cbn; reflexivity|].
+            eapply impls_wrap; [reflexivity|reflexivity|].
+            apply (ev_many_open full b1 n0 ns c st Y Hb1 H0 Hns Hfail false [] (spre R) I).
+            rewrite spre_idem. reflexivity.
+          + cbn [nign]. eapply loops_stop; [apply (skips_std G full pil_c WS pil_comment_ok)|].
+            eapply evals_node_fail; [lk|apply (pre_premise G full pil_c WS pil_comment_ok); repeat split|].
+            unfold pre_pos. cbn [andb ncallpre]. rewrite spre_skip_ign.
+            eapply impls_wrap; [reflexivity|reflexivity|].
+            apply (ev_pattern_stop full false (LPAR :: Y)); rewrite lpar_stop; reflexivity.
+        - reflexivity. }
+      eapply seqs_cons; [apply (ev_noconc full (LPAR :: Y)); rewrite lpar_stop; reflexivity|].
+      apply seqs_fail.
+      assert (H260 : nth_error G 260 = Some (mkNode (KMany true) [261] true WS [pil_c] true [])) by lk.
+      assert (H261 : nth_error G 261 = Some (mkNode KSuppress [262] true WS [pil_c] true [])) by lk.
+      assert (H262 : exists cp, nth_error G 262 = Some (mkNode KLineEnd [] true WS [pil_c] cp [])) by (exists true; lk).
+      apply (evals_eol_fail G pil_c 261 262 WS pil_comment_ok H261 H262 full 260 true _ LPAR Y H260 (lpar_stop Y)). reflexivity.
+  Qed.
+
+  Theorem unclosed_first_refused b : blanks WS b -> evals G full 8 true (At (b ++ T)) PFail.
+  Proof.
+    intros Hb.
+    assert (Hk : forall kw, In kw pil_keywords -> is_prefix kw (x0 :: xs) = false /\ all_in idch kw).
+    { intros kw Hin. split.
+      - unfold not_keyword_led in Hnk. rewrite forallb_forall in Hnk. apply negb_true_iff. apply Hnk. exact Hin.
+      - pose proof keywords_idch as Hi. rewrite forallb_forall in Hi. apply Hi. exact Hin. }
+    assert (Hkw : forall kw i j k l, In kw pil_keywords ->
+              nth_error G i = Some (mkNode KGroup [j] true WS [pil_c] true []) ->
+              (exists ks tags, nth_error G j = Some (mkNode KAnd (k :: ks) true WS [pil_c] true tags)) ->
+              nth_error G k = Some (mkNode KSuppress [l] true WS [pil_c] true []) ->
+              nth_error G l = Some (mkNode (KLit kw) [] true WS [pil_c] true []) ->
+              evals G full i true (At (b ++ T)) PFail).
+    { intros kw i j k l Hin. destruct (Hk kw Hin) as [Hp Ha]. apply (first_kw_fail b kw i j k l Hb Hp Ha). }
+    eapply evals_node_fail; [lk|cbn; reflexivity|]. apply impls_first; [reflexivity|]. cbn [nkids].
+    eapply firsts_miss; [eapply (Hkw _ 9 10 11 12); [cbn; auto 12|lk|eexists _, _; lk|lk|lk]|].
+    eapply firsts_miss; [eapply (Hkw _ 30 31 32 33); [cbn; auto 12|lk|eexists _, _; lk|lk|lk]|].
+    eapply firsts_miss; [eapply (Hkw _ 41 42 43 44); [cbn; auto 12|lk|eexists _, _; lk|lk|lk]|].
+    eapply firsts_miss; [eapply (Hkw _ 49 50 51 52); [cbn; auto 12|lk|eexists _, _; lk|lk|lk]|].
+    eapply firsts_miss; [eapply (Hkw _ 57 58 59 60); [cbn; auto 12|lk|eexists _, _; lk|lk|lk]|].
+    eapply firsts_miss; [eapply (Hkw _ 71 72 73 74); [cbn; auto 12|lk|eexists _, _; lk|lk|lk]|].
+    eapply firsts_miss; [eapply (Hkw _ 84 85 86 87); [cbn; auto 12|lk|eexists _, _; lk|lk|lk]|].
+    eapply firsts_miss; [eapply (Hkw _ 101 102 103 104); [cbn; auto 12|lk|eexists _, _; lk|lk|lk]|].
+    eapply firsts_miss; [eapply (Hkw _ 115 116 117 118); [cbn; auto 12|lk|eexists _, _; lk|lk|lk]|].
+    eapply firsts_miss; [eapply (Hkw _ 189 190 191 192); [cbn; auto 12|lk|eexists _, _; lk|lk|lk]|].
+    eapply firsts_miss; [exact (first_alt_202 b Hb)|].
+    eapply firsts_miss; [eapply (first_kw_fail b kw_state 263 264 265 266 Hb Hst eq_refl); [lk|eexists _, _; lk|lk|lk]|].
+    eapply firsts_miss; [|apply firsts_nil].
+    eapply (first_kw_fail b kw_macrostate 283 284 285 286 Hb Hms eq_refl); [lk|eexists _, _; lk|lk|lk].
+  Qed.
+End First.
+
+Theorem reject_unclosed_first x0 xs b2 b1 n0 ns c st Y pls b :
+  dangling Y -> memc x0 idch = true -> all_in idch xs -> not_keyword_led (x0 :: xs) ->
+  is_prefix kw_state (x0 :: xs) = false -> is_prefix kw_macrostate (x0 :: xs) = false ->
+  blanks WS b2 -> blanks WS b1 -> memc n0 idch = true -> all_in idch ns ->
+  Forall pil_blank_line pls -> blanks WS b ->
+  no_tab (concat pls ++ b ++ open_first_text x0 xs b2 b1 n0 ns c st Y) ->
+  exists f0, forall f, f0 <= f ->
+    parse_pil_fuel f (concat pls ++ b ++ open_first_text x0 xs b2 b1 n0 ns c st Y) = err eParse.
+Proof.
+  intros HY Hx0 Hxs Hnk Hst Hms Hb2 Hb1 H0 Hns Hp Hb Hnt. apply pil_document_reject; try assumption.
+  - unfold open_first_text. apply idch_stop in Hx0. apply stopc_elim in Hx0. exact Hx0.
+  - intros full b' Hb'. apply unclosed_first_refused; assumption.
+Qed.
+
+Example unclosed_first_example :     (* "X = a( b\n"  and  "X = a(\n" *)
+  dangling (items_text [ISense [32%N] 98%N [] false false] [NL]) /\
+  parse_pil (open_first_text 88%N [] [32%N] [32%N] 97%N [] false false (items_text [ISense [32%N] 98%N [] false false] [NL])) = err eParse /\
+  dangling (items_text [] [NL]) /\
+  parse_pil (open_first_text 88%N [] [32%N] [32%N] 97%N [] false false [NL]) = err eParse.
+Proof.
+  assert (HE : stmt_end [NL] []).
+  { change [NL] with (([] ++ [NL]) ++ concat []). apply pil_stmt_end_lines; [apply pil_blank_line_plain; reflexivity|constructor]. }
+  repeat split; try (vm_compute; reflexivity).
+  - apply dg_end; [cbn; repeat split; reflexivity|exact HE].
+  - apply dg_end; [exact I|exact HE].
+Qed.
